@@ -203,6 +203,10 @@ def gen_stat(rng):
     cfg["out"] = {"molid": [0], "print": 0, "ckpt": 0, "xyz": 0, "h5": {"data": 0, "coordinates": 0, "velocities": 0, "forces": 0}}
     cfg["reuse_P"] = True
     cfg["remove_com"] = None
+    if rng.random() < 0.5:
+        # thermostat + periodic centre-of-mass removal (a documented combination): the removal preserves the kinetic
+        # energy, so the long-run mean kinetic temperature (under the thermostat's 3N count) stays on target
+        cfg["remove_com"] = [rng.choice(["linear", "angular"]), rng.choice([1, 1, 3])]
     return cfg
 
 
@@ -411,7 +415,7 @@ def _stat(record, root):
         failures.append(
             core.fail(
                 "stationary-temperature",
-                f"mean kinetic temperature {mean_all:.2f} K over {n} steps x {int(ndof_tot)} dof, target {cfg['temp']} K: deviation {rel:.3%} > max(3%, 6 sigma = {6 * sigma:.3%}); pot={cfg['stub']['pot']} dt/tau={cfg['dt'] / cfg['damp']:.3g}",
+                f"mean kinetic temperature {mean_all:.2f} K over {n} steps x {int(ndof_tot)} dof, target {cfg['temp']} K: deviation {rel:.3%} > max(3%, 6 sigma = {6 * sigma:.3%}); pot={cfg['stub']['pot']} dt/tau={cfg['dt'] / cfg['damp']:.3g} remove_com={cfg.get('remove_com')}",
             )
         )
     xm = r["report"]["hook"].get("xi_moments")
@@ -433,7 +437,9 @@ def _stat(record, root):
             if zz > tol["noise_z"]:
                 failures.append(core.fail("noise-not-gaussian", f"the thermostat noise inferred from {nn} velocity updates is not standard normal: {name} deviates by {zz:.1f} sigma (mean {mean:.4f}, variance {var:.4f}, kurtosis {kurt:.4f}, P(|xi|>2) {tail:.4%}); a Maxwell-Boltzmann distribution is not left invariant"))
                 break
-    sig = ["stat", cfg["engine"], cfg["stub"]["pot"], cfg["damp"], cfg["temp"]]
+    if cfg.get("remove_com"):
+        stats["probes"]["statistical_runs_with_com_removal"] = 1
+    sig = ["stat", cfg["engine"], cfg["stub"]["pot"], cfg["damp"], cfg["temp"], cfg.get("remove_com")]
     stats["sim_time_fs"] = cfg["steps"] * cfg["dt"]
     return core.Result.make(record, failures, stats, sig=sig, nontrivial=True, sample={"cfg": cfg, "mean_T": mean_all, "n_steps": n, "sigma_rel": sigma}, digest_=core.digest(st))
 
